@@ -257,21 +257,84 @@ def exposureOK (s : CS) : Bool :=
 def supervisedOK (s : CS) : Bool :=
   s.gone || (match s.wl with | some w => RV.Oracle.Cluster.supervised (roWorld s) (wlx w) | none => true)
 
-/-- guard of known finding `supersedeRace`: the rollout is rolling on a revision that is no longer the workload's update
-    revision (a newer revision was pushed and the Rollout controller has not reset the release yet) -/
-def gSupersedeRace (s : CS) : Bool :=
+/-- the rollout is rolling on a revision that is no longer the workload's update revision (a newer revision was pushed and
+    the Rollout controller has not reset the release yet): the state part of the guard of known finding `supersedeBeforeInit` -/
+def superseding (s : CS) : Bool :=
   !s.gone && s.ro.phase == .progressing && s.ro.reason == .inRolling &&
   (match s.ro.sub, s.wl with | some sub, some w => sub.canaryRev != w.updateRevision | _, _ => false)
+
+/-- a release pushed at this moment falls into known finding `supersedeBeforeInit`: a BatchRelease exists that has not
+    recorded the revision it releases yet (created by the Rollout controller, not yet initialised by the executor), so
+    `Initialize` will adopt whatever revision the workload has by then -/
+def releaseBeforeInit (s : CS) : Bool :=
+  match s.br with | some b => b.st.updateRevision == "" | none => false
+
+/-! ### supersession: a newer revision pushed while the rollout is rolling (continuous release) -/
+
+/-- the BatchRelease cannot lower the workload's partition any more: it is Completed; or it is being deleted / finalised with
+    its batch partition still set (`Finalize` then only drops the control annotation); or it is Progressing on a recorded
+    revision that is not the workload's any more (the executor stops on every round — the repaired defect `supersedeRace`) -/
+def brHolds (b : CBr) (w : CWl) : Bool :=
+  b.st.phase == .completed ||
+  (b.partition.isSome && (b.deleting || b.st.phase == .finalizing)) ||
+  (!b.deleting && b.partition.isSome && b.st.phase == .progressing && b.st.updateRevision != "" &&
+   b.st.updateRevision != "wl-" ++ w.updateRevision && decide (b.st.currentBatch < b.batches.length) &&
+   b.st.observedReplicas == w.replicas)
+
+def brHoldsO (br : Option CBr) (w : CWl) : Bool := match br with | some b => brHolds b w | none => true
+
+/-- the invariant while the Rollout controller resets a superseded release: the rollout still says InRolling on the old
+    revision; the workload is held back exactly as the webhook left it — partition 100 %, no pod on the new revision —
+    and the BatchRelease, if any, cannot lower the partition -/
+def resetInv (s : CS) : Bool :=
+  roOK s &&
+  (match s.wl with
+   | none => false
+   | some w =>
+     wlOK w && planMono w.replicas (planOf s.ro) && brOKo s.br &&
+     s.ro.phase == .progressing && s.ro.reason == .inRolling &&
+     (match s.ro.sub with | some sub => sub.canaryRev != "" && sub.canaryRev != w.updateRevision | none => false) &&
+     w.updateRevision != w.currentRevision && decide (0 < w.replicas) && w.updated == 0 && held w && brHoldsO s.br w)
+
+/-- the reset cursor reaches its last stage (`RemoveCanaryService`, only with traffic routing) only once the BatchRelease is gone -/
+def resetCursor (s : CS) : Bool :=
+  match s.ro.sub with
+  | some sub => !(s.ro.hasTraffic && sub.finStep == .removeCanaryService) || s.br.isNone
+  | none => true
+
+/-- the invariant of the supersession theorems: the forward invariant, or the reset invariant -/
+def supInv (s : CS) : Bool := fwdInv s || (resetInv s && resetCursor s)
+
+/-- a superseding release is legal (for the theorems) when the rollout is rolling on a workload with at least one replica, the
+    revision is new, and the BatchRelease — if one exists — is Progressing with the rolled revision and the workload's size
+    recorded (outside known finding `supersedeBeforeInit`: a BatchRelease not yet initialised adopts the new revision) -/
+def supersedeOK (s : CS) (rev : String) : Bool :=
+  !s.gone && s.ro.phase == .progressing && s.ro.reason == .inRolling &&
+  (match s.wl, s.ro.sub with
+   | some w, some sub =>
+     decide (0 < w.replicas) && rev != "" && rev != w.currentRevision && rev != w.updateRevision && sub.canaryRev != "" &&
+     w.updateRevision != w.currentRevision &&
+     (match s.br with
+      | none => true
+      | some b => !b.deleting && b.st.phase == .progressing && b.st.updateRevision == "wl-" ++ w.updateRevision &&
+          b.st.observedReplicas == w.replicas)
+   | _, _ => false)
+
+/-- the labels of the supersession theorems: the forward labels, and a superseding release (once per reset) -/
+def legalS (s : CS) : Label → Bool
+  | .release rev => (fwdInv s && (idle s rev || supersedeOK s rev))
+  | .delete => false
+  | _ => true
 
 /-- **C09** — no reconciler panics from this state -/
 def totalOK (s : CS) : Bool := (step s .ro).isSome && (step s .br).isSome
 
-def stateOracles (s : CS) (fwd : Bool) (del : Bool := false) : List (String × Bool) :=
-  let inv := (!fwd || fwdInv s) && (!del || delInv s)
+def stateOracles (s : CS) (fwd : Bool) (del : Bool := false) (sup : Bool := false) : List (String × Bool) :=
+  let inv := (!fwd || fwdInv s) && (!del || delInv s) && (!sup || supInv s)
   [("C01.loop_inv", inv), ("C02.loop_inv", inv), ("C06.loop_inv", inv), ("C07.loop_inv", inv), ("C09.loop_inv", inv),
    ("C09.loop_total", totalOK s), ("C06.loop_total", totalOK s),
    ("C01.loop_exposure", exposureOK s), ("C06.loop_exposure", exposureOK s),
-   ("C01.loop_supervised", supervisedOK s), ("C06.loop_supervised", supervisedOK s)]
+   ("C01.loop_supervised", supervisedOK s), ("C06.loop_supervised", supervisedOK s), ("C08.loop_supervised", supervisedOK s)]
 
 /-- **C02.i on one Rollout reconcile of the closed loop** (the conclusion of `RV.Lemmas.ClosedLoop.rolling_gate`, judged on
     the state before and after): the index moves only from `StepReady` by one; a gate that is passed was observed open -/
